@@ -236,7 +236,7 @@ def asm_case(draw):
     style = {
         "case": draw(st.lists(st.sampled_from(["upper", "lower", "mixed"]), min_size=1, max_size=4)),
         "indent": draw(st.lists(st.sampled_from(["", "  ", "\t", "    "]), min_size=1, max_size=4)),
-        "comments": draw(st.lists(st.sampled_from(["", "", " # note", "#x", "  # LDA 5", ' # "q"', " # a: .word 1", " ## #", " # é"]), min_size=1, max_size=4)),
+        "comments": draw(st.lists(st.sampled_from(["", "", " # note", "#x", "  # LDA 5", ' # "q"', " # a: .word 1", " ## #", " # é", " # don't", ' # 5" tall, it\'s', " # 'x' \"y\" 'z"]), min_size=1, max_size=4)),
         "blank": draw(st.lists(st.booleans(), min_size=1, max_size=3)),
         "blankline": draw(st.lists(st.sampled_from(["", "   ", "# only a comment", "\t", '# "', "# .data"]), min_size=1, max_size=2)),
         "trailing_newline": draw(st.booleans()),
